@@ -85,20 +85,19 @@ func MpintBody(n *big.Int) []byte {
 		return []byte{}
 	}
 	one := big.NewInt(1)
-	for L := 1; ; L++ {
+	// No L below BitLen/8 can work (2^(8L-1) would not exceed |n|), so the search for
+	// the smallest L starts there.
+	start := n.BitLen() / 8
+	if start < 1 {
+		start = 1
+	}
+	for L := start; ; L++ {
 		half := new(big.Int).Lsh(one, uint(8*L-1)) // 2^(8L-1)
 		lo := new(big.Int).Neg(half)
 		if n.Cmp(lo) >= 0 && n.Cmp(half) < 0 {
 			mod := new(big.Int).Lsh(one, uint(8*L))
 			v := new(big.Int).Mod(n, mod) // Euclidean: always in [0, 2^(8L))
-			out := make([]byte, L)
-			d := new(big.Int)
-			b256 := big.NewInt(256)
-			for i := L - 1; i >= 0; i-- {
-				v.DivMod(v, b256, d)
-				out[i] = byte(d.Int64())
-			}
-			return out
+			return v.FillBytes(make([]byte, L))
 		}
 	}
 }
@@ -109,11 +108,7 @@ func EncodeMpint(n *big.Int) []byte { return EncodeString(MpintBody(n)) }
 // MpintValue interprets body as a two's complement big-endian integer of any
 // (not necessarily minimal) length; the empty body is zero.
 func MpintValue(body []byte) *big.Int {
-	v := new(big.Int)
-	for _, c := range body {
-		v.Mul(v, big.NewInt(256))
-		v.Add(v, big.NewInt(int64(c)))
-	}
+	v := new(big.Int).SetBytes(body) // unsigned big-endian reading
 	if len(body) > 0 && body[0] >= 0x80 {
 		v.Sub(v, new(big.Int).Lsh(big.NewInt(1), uint(8*len(body))))
 	}
